@@ -48,6 +48,19 @@ def register(add, parse, find_func, const_int, rat_of, ShapeError, module_assign
     add("metricsMddInitHigh", "Int", f"({const_int(init.elts[1])})", "initial g_high")
     add("metricsMddInitLow", "Int", f"({const_int(init.elts[2])})", "initial g_low")
 
+    # The body of the scan (the `> 0` guard, the relative `_dp`, the comparisons) is not flagged here: `_withdraw_with_high_low` is translated
+    # whole by tools/py2lean.py and tied to the model by Proofs/Tie/Metrics.lean (`Tie_metrics_withdraw_with_high_low`), which stops checking
+    # when any of them changes.  `max_draw_down` itself (pandas `.iloc`) is not translated, so its two statements are flagged:
+    #   max_value, idx_h, idx_l = _withdraw_with_high_low(net_value.to_list())
+    #   return (net_value.iloc[idx_h] - net_value.iloc[idx_l]) / net_value.iloc[idx_h]
+    mdd = find_func(calc, "max_draw_down")
+    body = [n for n in mdd.body if not (isinstance(n, ast.Expr) and isinstance(n.value, ast.Constant))]   # without the docstring
+    want = ast.parse("max_value, idx_h, idx_l = _withdraw_with_high_low(net_value.to_list())\n"
+                     "return (net_value.iloc[idx_h] - net_value.iloc[idx_l]) / net_value.iloc[idx_h]").body
+    same = len(body) == 2 and [a.arg for a in mdd.args.args] == ["net_value"] and all(ast.dump(a) == ast.dump(b) for a, b in zip(body, want))
+    add("metricsMddQuotientOnScanIndices", "Bool", "true" if same else "false",
+        "max_draw_down returns (nv[idx_h] - nv[idx_l]) / nv[idx_h] on the indices _withdraw_with_high_low returns (calculator.py)")
+
     core = parse("demeter/result/metrics/core.py")
     pm = find_func(core, "performance_metrics")
     # interval.value / 1e9 / 86400
